@@ -46,6 +46,12 @@ BY_CHECK = {
         "TLX.OnCode.C09.comment_and_blank_ignored",
         "TLX.OnCode.C09.keys_invariant_under_delivery_on_code",
     ]),
+    "C10": ("TLX.Props.OnCode.C10", [
+        "TLX.OnCode.C10.server_role",
+        "TLX.OnCode.C10.server_port_is_server_port",
+        "TLX.OnCode.C10.exported_ports",
+        "TLX.OnCode.C10.exported_ports_quic",
+    ]),
     "C14": ("TLX.Props.OnCode.C14", [
         "TLX.OnCode.C14.split_cipher_suite_sound_complete",
         "TLX.OnCode.C14.cipher_suites_keys",
